@@ -346,7 +346,10 @@ func rigTakeProbe(aliases map[string]*rigClientSess, full bool, fss *raft.FileSn
 	}
 	byId := make(map[uint64]*pb.Snapshot_Session)
 	for _, s := range snap.Sessions {
-		byId[s.Id.Id] = s
+		// pseudo-clients of a services link share the link's Id.Id (Reply != 0)
+		if s.Id.Reply == 0 {
+			byId[s.Id.Id] = s
+		}
 	}
 	seen := make(map[uint64]bool)
 	var names []string
